@@ -132,6 +132,68 @@ func runC07(c *Ctx) {
 		c.indexAtomic()
 	})
 
+	c.rule("C07.V2", "RollbackBlockHeaders removes the index entry of every rolled-back header: the slice handed to truncateIndices holds one distinct hash per removed header (a fresh cell per iteration, filled with that header's BlockHash()), and no module function stores the address of one loop-invariant variable into the elements of a slice inside a loop", func() {
+		fn := c.fn(fnBRoll)
+		ti := find(fn, callTo(c.hfs("headerIndex", "truncateIndices")))
+		bh := c.method(pWire, "BlockHeader", "BlockHash")
+		okv := len(ti) == 1
+		var elemStores []ssa.Instruction
+		ir.Instrs(fn, func(in ssa.Instruction) {
+			st, ok := in.(*ssa.Store)
+			if !ok {
+				return
+			}
+			if _, isIdx := st.Addr.(*ssa.IndexAddr); !isIdx {
+				return
+			}
+			if al, isAl := st.Val.(*ssa.Alloc); isAl {
+				elemStores = append(elemStores, in)
+				h := ir.LoopHeaderOf(in.Block())
+				// fresh per iteration: allocated inside the same loop
+				if h == nil || ir.LoopHeaderOf(al.Block()) != h {
+					okv = false
+				}
+				// filled with the BlockHash of a header
+				filled := false
+				for _, s2 := range ir.StoresTo(al) {
+					if valIsCallTo(bh)(s2.Val) {
+						filled = true
+					}
+				}
+				if !filled {
+					okv = false
+				}
+			}
+		})
+		c.verdict(okv && len(elemStores) == 1, c.nm(fn)+" | one fresh hash cell per removed header", c.P.Pos(fn.Pos()), "per-iteration cell holding header.BlockHash()", "the hashes handed to truncateIndices are not one distinct cell per removed header (all elements alias one variable, or are not the headers' hashes): index entries of rolled-back headers survive", c.ats(elemStores)...)
+		// generic aliasing check over the module
+		var bad []string
+		for _, f := range c.P.Funcs {
+			ir.Instrs(f, func(in ssa.Instruction) {
+				st, ok := in.(*ssa.Store)
+				if !ok {
+					return
+				}
+				if _, isIdx := st.Addr.(*ssa.IndexAddr); !isIdx {
+					return
+				}
+				al, isAl := st.Val.(*ssa.Alloc)
+				if !isAl || !al.Heap {
+					return
+				}
+				h := ir.LoopHeaderOf(in.Block())
+				if h == nil {
+					return
+				}
+				if !h.Dominates(al.Block()) || al.Block() == h && false {
+					bad = append(bad, c.nm(f)+" at "+c.at(in))
+				}
+			})
+		}
+		sort.Strings(bad)
+		c.verdict(len(bad) == 0, "module | no slice element inside a loop is set to the address of a variable declared outside that loop", "", "no such aliasing", "address of a loop-invariant variable stored into slice elements inside a loop (every element aliases the same variable): "+join(bad), "all module functions")
+	})
+
 	c.rule("C07.V1", "appendRaw: the size used to cut a partial write off is the end-of-file offset before the write (the file is opened O_APPEND, so the current offset is not the end of file after open or after a truncate): Seek(0, io.SeekEnd) or Stat().Size()", func() {
 		fn := c.fn(fnAppend)
 		truncM := c.method("headerfs", "File", "Truncate")
